@@ -510,9 +510,7 @@ func (g *vGen) next(step int, st map[string]interface{}) *vEntry {
 			switch r.Intn(8) {
 			case 6, 7:
 				// several parts between colons: tags in any case, bare keywords, empty parts, a tag twice
-				e.Data = "PASS :" + pick(r, []string{"hunter2:oper", "oper", "x:nickserv", "nickserv=a:b:oper=op pw", "OPER=op pw",
-					"oper=op pw:tail", ":oper=op pw", "oper=:x", "captcha:oper=op wrong:", "nickserv=:", "services=spw:x", "oper=op pw:oper=", "a:b:c",
-					"oper=admin pw2:nickserv=n", "Nickserv=x:y"})
+				e.Data = "PASS :" + pick(r, vPassShapes)
 			case 0:
 				e.Data = "PASS services=spw"
 			case 1:
@@ -728,6 +726,7 @@ func (g *vGen) volume() []*vEntry {
 	line(b, "WHOIS alice")
 	line(a, "WHOIS bob")
 	line(a, "LIST")
+	line(b, "JOIN 0") // not a channel name (some servers read it as "leave everything")
 	if r.Intn(2) == 0 {
 		// the operators lower the channel limit below the number of channels that exist: nothing is
 		// destroyed, and no new channel comes into being until enough old ones are gone
@@ -925,6 +924,52 @@ func (g *vGen) oddaddr() []*vEntry {
 	return es
 }
 
+var vPassShapes = []string{"hunter2:oper", "oper", "x:nickserv", "nickserv=a:b:oper=op pw", "OPER=op pw",
+	"oper=op pw:tail", ":oper=op pw", "oper=:x", "captcha:oper=op wrong:", "nickserv=:", "services=spw:x", "oper=op pw:oper=", "a:b:c",
+	"oper=admin pw2:nickserv=n", "Nickserv=x:y", "captcha", "x:captcha:y", "NICKSERV", "network=n:session=s:oper"}
+
+// passparts: sessions that log in after a PASS made of several parts (the parts are taken apart at login)
+func (g *vGen) passparts() []*vEntry {
+	r := g.r
+	var es []*vEntry
+	g.rev++
+	cfg := vCfgEntry(r, 0, 0, g.rev)
+	for !cfg.CfgOk || cfg.Cfg["maxs"].(int64) != 0 {
+		cfg = vCfgEntry(r, 0, 0, g.rev)
+	}
+	es = append(es, cfg)
+	base := g.id
+	line := func(sess int64, data string) {
+		es = append(es, &vEntry{T: "line", Sess: sess, Data: data, Sup: true, Conf: true})
+	}
+	const n = 4
+	for k := 0; k < n; k++ {
+		es = append(es, &vEntry{T: "create", Data: fmt.Sprintf("auth%04d-secret", base+int64(k)+1), Sup: true, Conf: true})
+	}
+	nicks := []string{"alice", "bob", "carol", "dave"}
+	for k := 0; k < n; k++ {
+		sess := base + int64(k) + 1
+		pass := "PASS :" + pick(r, vPassShapes)
+		switch r.Intn(3) {
+		case 0:
+			line(sess, pass)
+			line(sess, "NICK "+nicks[k])
+			line(sess, fmt.Sprintf("USER u%d 0 * :Real %d", k, k))
+		case 1:
+			line(sess, "NICK "+nicks[k])
+			line(sess, pass)
+			line(sess, fmt.Sprintf("USER u%d 0 * :Real %d", k, k))
+		default:
+			line(sess, "NICK "+nicks[k])
+			line(sess, fmt.Sprintf("USER u%d 0 * :Real %d", k, k))
+			line(sess, pass) // after the login (with a captcha required for the login: what completes it)
+		}
+		line(sess, "JOIN #a")
+	}
+	g.minlen = len(es) + 6
+	return es
+}
+
 // crowd: so many members with long nicknames in one channel that the list of names no longer fits into one
 // line (what is cut, and where, must not depend on anything but the log)
 func (g *vGen) crowd() []*vEntry {
@@ -980,6 +1025,8 @@ func (g *vGen) warmup() []*vEntry {
 		return g.prelogin()
 	case 8, 9:
 		return g.oddaddr()
+	case 10, 11:
+		return g.passparts()
 	}
 	var es []*vEntry
 	g.rev++
